@@ -39,7 +39,7 @@ PInit ==
              inStep  |-> FALSE,
              errSeen |-> FALSE,  \* a main future returned Err during the current step
              panSeen |-> FALSE,  \* a task panicked during the current step
-             clock   |-> TRUE,   \* C05 is claimed "after every step that returns Ok": cleared by the first Err / panic
+             clock   |-> TRUE,   \* C05 is claimed while every step ran to its end: cleared by the first software Err / panic
              over    |-> FALSE,  \* an error or panic was reported: the simulation is over (C11 claims stop)
              inRun   |-> FALSE,
              rsteps  |-> 0,      \* steps taken by the current Sim::run call
@@ -76,7 +76,8 @@ Baseline(p, polls) ==
 P_Register(n, kind, e) ==
     /\ ~pc.inStep /\ ~pc.inRun /\ n \notin Nodes
     /\ pn' = pn @@ (n :> [kind |-> kind, off |-> e, down |-> FALSE, fin |-> "none",
-                          finStart |-> 0, finAt |-> 0, frozen |-> -1, lastEl |-> 0])
+                          finStart |-> 0, finAt |-> 0, frozen |-> -1, lastEl |-> 0,
+                          wp |-> {}])   \* simulation instants at which a task of the node is going to panic
     /\ bad' = bad \cup Flag(pc.clock => e = pc.e, "ClockStep")
     /\ UNCHANGED pc
 
@@ -126,6 +127,13 @@ P_Panic(h) ==
     /\ bad' = bad \cup Flag(~pn[h].down, "NoRepoll")
     /\ UNCHANGED pn
 
+\* The software of h started a task that is going to panic at simulation instant `at` (a whole-
+\* millisecond timer from now), unless the node is crashed / bounced / finished and left alone first.
+P_WillPanic(h, at) ==
+    /\ pc.inStep /\ h \in Nodes
+    /\ pn' = [pn EXCEPT ![h].wp = @ \cup {at}]
+    /\ UNCHANGED <<pc, bad>>
+
 \* Code of an incarnation of h that has been replaced by Sim::bounce ran (a leftover task of the
 \* old main future took a turn next to the new incarnation).
 \* C11 "never polls finished or crashed software again"
@@ -152,7 +160,10 @@ ExpRes ==
 \* are not observed.
 P_StepEnd(res, known, e, se, polls) ==
     /\ pc.inStep
-    /\ LET okres == res \in {"true", "false"}
+    /\ LET \* the step ran to its end: it returned Ok, or the error is the duration check at the end of
+           \* a complete step ("every call to step advances the simulation clock ... by exactly the
+           \* configured tick"); a software error / panic leaves the step half way and ends the C05 claims
+           okres == res \in {"true", "false"} \/ (res = "Err" /\ ~pc.errSeen)
            p1 == [n \in Nodes |->
                     IF pn[n].fin # "none" /\ pn[n].finStart = pc.e0 /\ ~pn[n].down
                     THEN [pn[n] EXCEPT !.down = TRUE, !.frozen = IF known THEN polls[n] ELSE -1]
@@ -160,6 +171,14 @@ P_StepEnd(res, known, e, se, polls) ==
        IN
        /\ bad' = bad
             \cup Flag(~pc.over => res = ExpRes, "StepResult")
+            \* C11 "a panic inside any host or client surfaces as a panic of the calling test": a node that
+            \* was running when the step began is run through the whole tick (Sim::step "runs each host ...
+            \* a fixed duration"), so a panic that is due strictly inside the step's window happens in it -
+            \* also when the node's main future completes earlier in the same tick.  (Not claimed when a
+            \* software error cut the step short, or for a panic due exactly at the end of the window.)
+            \cup Flag((~pc.over /\ res # "Panic" /\ ~(res = "Err" /\ pc.errSeen))
+                        => \A n \in Nodes : ~pn[n].down => \A t \in pn[n].wp : t >= pc.e0 + Tick,
+                      "PanicSurfaces")
             \* C05 "every call to step advances the simulation clock ... by exactly the configured tick"
             \cup Flag((pc.clock /\ known /\ okres) => (e = pc.e0 + Tick /\ se = Epoch + e), "ClockStep")
             \cup Flag(known => FrozenOk(pn, polls), "NoRepoll")
@@ -174,7 +193,7 @@ P_StepEnd(res, known, e, se, polls) ==
 P_Crash(h, polls) ==
     /\ ~pc.inStep /\ ~pc.inRun /\ h \in Nodes
     /\ bad' = bad \cup Flag(FrozenOk(pn, polls), "NoRepoll")
-    /\ pn' = [Baseline(pn, polls) EXCEPT ![h].down = TRUE,
+    /\ pn' = [Baseline(pn, polls) EXCEPT ![h].down = TRUE, ![h].wp = {},
                   ![h].frozen = IF pn[h].down /\ pn[h].frozen >= 0 THEN @ ELSE polls[h]]
     /\ UNCHANGED pc
 
@@ -182,7 +201,7 @@ P_Crash(h, polls) ==
 P_Bounce(h, polls) ==
     /\ ~pc.inStep /\ ~pc.inRun /\ h \in Nodes
     /\ bad' = bad \cup Flag(FrozenOk([pn EXCEPT ![h].down = FALSE], polls), "NoRepoll")
-    /\ pn' = [Baseline(pn, polls) EXCEPT ![h].down = FALSE, ![h].fin = "none", ![h].frozen = -1]
+    /\ pn' = [Baseline(pn, polls) EXCEPT ![h].down = FALSE, ![h].fin = "none", ![h].frozen = -1, ![h].wp = {}]
     /\ UNCHANGED pc
 
 P_RunBegin ==
@@ -249,6 +268,7 @@ StepResult  == "StepResult" \notin bad
 RunResult   == "RunResult"  \notin bad
 RunInTime   == "InTime"     \notin bad
 NoRepoll    == "NoRepoll"   \notin bad
+PanicSurfaces == "PanicSurfaces" \notin bad
 \* Family predicate of known finding D14 (C11): Sim::run called when the simulation
 \* duration has already elapsed lets its first step run unchecked, so a client that
 \* completes within that step yields Ok although it finished after the duration.
@@ -258,5 +278,5 @@ NoRepoll    == "NoRepoll"   \notin bad
 NoLateRun   == "LateRun"    \notin bad
 
 C05Inv == ClockStep /\ Window /\ Consistent /\ Monotone /\ TimerExact
-C11Inv == StepResult /\ RunResult /\ RunInTime /\ NoRepoll
+C11Inv == StepResult /\ RunResult /\ RunInTime /\ NoRepoll /\ PanicSurfaces
 =============================================================================
